@@ -300,7 +300,7 @@ pub fn state_pair(c: &DriftCase, w: &World) -> StatePair {
         }
         let entry = match f.fate % 4 {
             0 => (w.paths[i].clone(), Some(old), Some(new), None),
-            1 => (w.paths[i].clone(), Some(old), Some(new), Some(format!("old_{i}_{}", w.paths[i].replace('/', "_")))),
+            1 => (w.paths[i].clone(), Some(old), Some(new), Some(format!("old_{i}_{}{}", if i % 2 == 1 { "señal_" } else { "" }, w.paths[i].replace('/', "_")))),
             2 => (w.paths[i].clone(), None, Some(new), None),
             _ => (w.paths[i].clone(), Some(new.clone()), Some(new), None),
         };
@@ -687,7 +687,7 @@ pub fn small_scope_cases() -> Vec<DriftCase> {
 pub fn run(run: &mut Run) {
     run.rule = "enumerated small scope: every edit script of <= 2 single-line operations at every position of a fixed nine-line Python file with nested, linked blocks under -U0 and -U3 (1 624 cases). random: 1..4 files of random suffixes (root or sub-directories, one with a space, two whose names sort differently by bytes and by path components: `f0/` next to `f0.<ext>`, `src-gen/` next to `src/`), each a balanced list of own-line tag comments (any comment form of the language, 15% multi-line comments, 12% start tags spread over several lines, indentation), blocks named from a pool of 7 (duplicates, unnamed, one name holding a colon, one holding two-byte characters) with affects lists of 1..3 references (same file, other file, missing file, missing name, cycles), 20% of them with severity warning / Info (reported, not failing) or the unknown value `warn` (harmless while every link of the block is satisfied, a hard error once it has a stale one) and code lines; an edit script of 0..8 operations on new-side lines (add k lines, delete k lines at a gap, replace a line incl. tag lines; every third replacement differs in trailing blanks only) from which the old state is derived; file fates modified / renamed / new / untouched / an extra deleted file; in 25% further entries in the same diff (a binary file, an added empty file, a changed file of unknown suffix holding unbalanced tags, a file emptied, a mode-only change, a symbolic link replaced by a regular file); hostile removed lines (`-- x`, `--- a/f`, `@@ -1 +1 @@`, …) in 10%; missing trailing newline in 15% (new state) / 25% (old state); CRLF files in 10%; real git in a generated mode (-U0..10, unstaged/--cached/HEAD/commit-to-commit/`git show` of the commit (header and message in front of the diff), 4 diff algorithms, -M). Oracle part 1: flag per block from an independent reader of git's diff (must / must-not / unspecified zones), part 2: affects diagnostics = reference model over the listed flags, exit status; part 3: after touching every linked block the run passes. Non-trivial = a file with >= 2 hunks, a must-modified block with affects and a must-not block.".into();
     run.assumptions = vec![
-        "file names avoid characters git C-quotes".into(),
+        "new-side file names avoid characters git C-quotes (the old name of every second renamed file holds non-ASCII letters and is printed C-quoted)".into(),
         "mixed -/+ groups count through their added lines only (removed lines of a mixed group are not asserted: see K2 in DESIGN.md)".into(),
         "changes touching or adjoining a tag comment line are unspecified for that block".into(),
     ];
